@@ -545,8 +545,10 @@ func runC05(sc *C05Scenario, tr *kit.Trace) *kit.Result {
 			continue
 		}
 		a, b := c05Norm(wire[i]), c05Norm(dec[i])
-		if a != b && c05TTLsWithinOne(a, b) && oneApart == 0 {
-			// once per scenario: a path that is systematically a second off shows it in every hit
+		if a != b && c05TTLsWithinOne(a, b) && oneApart < 3 {
+			// up to three times per scenario: the two runs reach an entry microseconds of fake
+			// time apart, and an operation that sits on a second boundary shows TTLs one apart.
+			// A path that is systematically a second off shows it in every hit.
 			oneApart++
 			res.Probes["ttl-one-apart-at-a-second-boundary"]++
 			b = a
